@@ -36,6 +36,7 @@ META = {
 }
 META["explanation"] += ' Also COPY for the explainers, NumPy functions on the feature names in constructors, function-only attributes read from the callables, DEP-C14.'
 META["explanation"] += ' Round 5: DEP-C06 VALUE / COUNT / keys-as-keywords and DEP-C05 accumulate / acc-init / result. HAZARD: constructs that do not mean what they look like, met in the analysed code (defaults evaluated once, class-level containers changed through self, dict.fromkeys with a shared mutable value, late-binding lambdas, truth value of objects that define __len__) are reported by every check.'
+META["explanation"] += ' Round 6: the constructors never ask for the truth value of the feature names (NAMES names-truth).'
 MIN_INSTANCES = {"DEFAULTS": 6, "NULL": 20, "ARITY": 20, "LOSSCALL": 9, "NAMES": 4, "BUDGET": 4, "NOMUT": 4, "STORAGE": 2, "RETURN": 4, "COPY": 3}
 
 ORDER_OPS = {"<", "<=", ">", ">="}
